@@ -55,6 +55,9 @@ CANDIDATES = (list(range(0x20, 0x7F)) + list(range(0xA0, 0x100)) + list(range(0x
               + list(range(0x410, 0x450)) + list(range(0x3041, 0x3094)) + list(range(0x30A1, 0x30F7))
               + list(range(0x4E00, 0x4E80)) + list(range(0x2500, 0x2520)) + [0x20AC, 0x2122, 0x152, 0x160]
               + [0x0301, 0x0308, 0x0327, 0x2126, 0x212B, 0xF900, 0xFA10, 0x1E9B, 0x3099, 0xFB01, 0x00C5, 0x03A9])
+from mido.midifiles.meta import decode_string as DECODE_STRING      # noqa: E402  (by name, at import time - on purpose)
+from mido.midifiles.meta import encode_string as ENCODE_STRING      # noqa: E402
+
 MODULES = [mido.midifiles.midifiles, mido.midifiles.meta, mido.midifiles.tracks,
            mido.messages.messages, mido.messages.decode, mido.messages.encode,
            mido.messages.checks, mido.messages.specs]
@@ -332,6 +335,55 @@ def exact_payload_case(ctx, cs, nbytes):
         restore_default()
     check_probe(ctx, 'default charset after successful call', 'leak-after-exact-payload', case)
     return 1
+
+
+def custom_text_spec_case(ctx):
+    """The documented helpers for custom meta specs - "encode_string / decode_string convert between a Unicode
+    string and a list of bytes using the current character set in the file" - imported BY NAME by the user's
+    module, as the documentation's own examples import things: a custom text event follows the file's charset
+    like the built-in ones, and nothing leaks afterwards.  (Registers a spec: runs last in its shard.)"""
+    from mido.midifiles.meta import MetaSpec, add_meta_spec
+
+    class MetaSpec_vmon_note(MetaSpec):
+        type_byte = 0xED
+        attributes = ['text']
+        defaults = ['']
+
+        def decode(self, message, data):
+            message.text = DECODE_STRING(data)
+
+        def encode(self, message):
+            return ENCODE_STRING(message.text)
+
+        def check(self, name, value):
+            if not isinstance(value, str):
+                raise TypeError('text must be a string')
+    add_meta_spec(MetaSpec_vmon_note)
+    n = 0
+    for cs in ('utf-8', 'shift_jis', 'utf-16-le', 'cp1252', 'latin1', 'koi8-r'):
+        al = [c for c in alphabet(cs) if ord(c) > 127][:6] or ['x']
+        text = 'note ' + ''.join(al)
+        case = {'kind': 'custom-text-spec', 'charset': cs}
+        try:
+            mid = MidiFile(charset=cs)
+            mid.tracks.append(MidiTrack([MetaMessage('vmon_note', text=text, time=2), MetaMessage('text', text=text, time=0)]))
+            buf = io.BytesIO()
+            mid.save(file=buf)
+            check_probe(ctx, 'default charset after successful call', f'leak-after-custom-save:{cs}', case)
+            d = smf.decode_file(buf.getvalue())
+            payloads = [bytes(e[3]) for e in d['tracks'][0] if e[0] == 'meta' and e[2] in (0xED, 0x01)]
+            ctx.check('file payload == text.encode(charset)', payloads == [text.encode(cs)] * 2, f'custom-text-spec-payload:{cs}', case,
+                      [p_.hex() for p_ in payloads])
+            back = MidiFile(file=io.BytesIO(buf.getvalue()), charset=cs)
+            got = [getattr(m, 'text', None) for m in back.tracks[0][:2]]
+            ctx.check('loaded text == original', got == [text, text] and back.tracks[0][0].type == 'vmon_note', f'custom-text-spec-loaded:{cs}',
+                      case, got)
+        except Exception as exc:
+            ctx.fail('loaded text == original', f'custom-text-spec:{type(exc).__name__}:{cs}', case, f'{type(exc).__name__}: {exc}')
+            restore_default()
+        check_probe(ctx, 'default charset after successful call', f'leak-after-custom-load:{cs}', case)
+        n += 1
+    return n
 
 
 def context_manager_case(ctx, cs):
@@ -661,11 +713,18 @@ def run(ctx):
                 ctx.nontrivial(None, k)
                 ctx.extra('line_injections', k)
                 n += k
+    if sh == 3 % N:
+        k = custom_text_spec_case(ctx)           # registers a meta spec: last thing this shard does
+        ctx.nontrivial(None, k)
+        n += k
     ctx.count('cases', n)
     ctx.extra('instrumented_code_objects', len(codes) if sh == 0 else 0)
 
 
 def replay(ctx, case):
+    if case.get('kind') == 'custom-text-spec':
+        custom_text_spec_case(ctx)
+        return
     restore_default()
     k = case['kind']
     if k == 'roundtrip':
